@@ -206,10 +206,19 @@ def check_pair(store, blobs, La, Lb, viol, stats, rng, impl):
                 viol.append({"sig": "C12/%s/tree_lookup_path-raises-%s" % (impl, type(e).__name__)})
     # (c) diffs: every flag variant applied to flatten(a) gives flatten(b)
     for kw in ({}, {"want_unchanged": True}, {"include_trees": True}, {"change_type_same": True}, {"want_unchanged": True, "change_type_same": True},
-               {"rename_detector": "RD"}, {"rename_detector": "RD", "want_unchanged": True}):
-        tag = impl + "/diff" + "".join("/" + k for k in sorted(kw))
+               {"rename_detector": "RD"}, {"rename_detector": "RD", "want_unchanged": True}, {"rename_detector": "RD-reused"}):
+        tag = impl + "/diff" + "".join("/" + k for k in sorted(kw)) + ("-reused" if kw.get("rename_detector") == "RD-reused" else "")
         k2 = dict(kw)
-        if "rename_detector" in k2:
+        if k2.get("rename_detector") == "RD-reused":
+            # one detector object serving many diffs in a row (as Walker and tree_changes_for_merge use it), with a small max_files so
+            # that some diffs exceed the limit: nothing of an earlier diff may leak into a later one
+            key = ("rd", id(store))
+            if key not in _st:
+                _st[key] = RenameDetector(store, max_files=rng.choice([1, 2, 3]))
+                _st["rd_keepalive"] = store
+            k2["rename_detector"] = _st[key]
+            stats["reused_detector_diffs"] = stats.get("reused_detector_diffs", 0) + 1
+        elif "rename_detector" in k2:
             k2["rename_detector"] = RenameDetector(store)
         try:
             ch = list(tree_changes(store, ta, tb, **k2))
@@ -299,6 +308,11 @@ def run_pairs(case):
     blobs = []
     for i in range(5):
         b = Blob.from_string(b"".join(b"line %d %d\n" % (i, j) for j in range(20)) if i else b"")
+        store.add_object(b)
+        blobs.append(b.id)
+    for k in range(3):
+        # near copies of blob 1 (one line of twenty differs): candidates for content-based rename detection
+        b = Blob.from_string(b"".join((b"line 1 %d\n" % j) if j != k else (b"edited %d\n" % k) for j in range(20)))
         store.add_object(b)
         blobs.append(b.id)
     viol, stats, nt = [], {}, set()
